@@ -57,12 +57,12 @@ Proof.
     + destruct Hc as [-> ->]. cbn. auto.
   - destruct rs as [|r1 rest]; [discriminate|]. inversion Hs; subst r1.
     fold (step v w (OMdJoin (r :: rest) dis)) in H.
-    destruct (mdjoin_step_full _ _ _ _ _ H) as [t0 [o [os [t' [plan [Hg JF]]]]]].
+    destruct (mdjoin_step_full _ _ _ _ _ H) as [t0 [o [os [t' [Hg MF]]]]].
     cbn [get_all] in Hg. rewrite Hr in Hg. destruct (get_all w rest) as [gr|]; [|discriminate]. injection Hg as E1 E2. subst t0. clear E2 gr.
-    destruct JF as [_ [Ht [_ [_ [_ [Hc _]]]]]].
-    exists t'. split; [exact Ht|]. unfold complete_or_none. rewrite have_cell_is_some.
+    destruct MF as [Ht [_ [Hc _]]].
+    exists t'. split; [exact Ht|]. unfold complete_or_none. rewrite have_cell_is_some. unfold cell_shape in Hc.
     destruct (have_cell t) eqn:E.
-    + destruct Hc as [l [a [-> [-> _]]]]. cbn. auto.
+    + destruct Hc as [l [a [-> ->]]]. cbn. auto.
     + destruct Hc as [-> ->]. cbn. auto.
   - inversion Hs; subst r0.
     destruct (nth_error (trajs w) r') as [o|] eqn:Hr'; [|unfold do_stack in H; rewrite Hr, Hr' in H; discriminate].
